@@ -448,6 +448,11 @@ impl Prop for C14 {
                             out.hit("checked_synthetic_names_keep_real_names_input_has_names");
                         }
                         for (k, name) in &n_off {
+                            // (an EMPTY name is walrus's documented notion of "anonymous" for locals: tools write
+                            // empty names for unnamed locals, and with the switch on such an entry is ignored)
+                            if name.is_empty() {
+                                continue;
+                            }
                             if n_on.get(k) != Some(name) {
                                 out.failure = fail(
                                     "synthetic_names_only_for_anonymous_items",
